@@ -6,8 +6,10 @@ package main
 
 import (
 	"bufio"
+	"bytes"
 	"encoding/json"
 	"fmt"
+	"net/http/httptest"
 	"os"
 	"path/filepath"
 	"regexp"
@@ -21,6 +23,7 @@ import (
 	"github.com/DemoHn/Zn/pkg/exec"
 	zio "github.com/DemoHn/Zn/pkg/io"
 	r "github.com/DemoHn/Zn/pkg/runtime"
+	"github.com/DemoHn/Zn/pkg/server"
 	"github.com/DemoHn/Zn/pkg/syntax"
 	"github.com/DemoHn/Zn/pkg/syntax/zh"
 	"github.com/DemoHn/Zn/pkg/value"
@@ -128,6 +131,8 @@ func handle(req *Req) (resp Resp) {
 		return doExprInput(req)
 	case "members":
 		return doMembers(req)
+	case "pg":
+		return doPlayground(req)
 	}
 	return Resp{Kind: "panic", Panic: "unknown op " + req.Op}
 }
@@ -1091,6 +1096,34 @@ func exprInputOnce(req *Req) (resp Resp) {
 		resp.Map[k] = toVal(v, 0)
 	}
 	return
+}
+
+// doPlayground sends one request through the real playground HTTP handler (pkg/server):
+// Text = VarInput, Src = SourceCode. Shared: reuse one handler (and interpreter) for all calls.
+var sharedPG *server.ZnPlaygroundHandler
+
+func doPlayground(req *Req) (resp Resp) {
+	defer func() {
+		if p := recover(); p != nil {
+			resp = Resp{Kind: "panic", Panic: fmt.Sprintf("%v\n%s", p, trimStack(debug.Stack()))}
+		}
+	}()
+	resetCapture()
+	var h *server.ZnPlaygroundHandler
+	if req.Shared {
+		if sharedPG == nil {
+			sharedPG = server.NewZnPlaygroundHandler(exec.NewInterpreter("verif").SetExternalLibs(libs()))
+		}
+		h = sharedPG
+	} else {
+		h = server.NewZnPlaygroundHandler(exec.NewInterpreter("verif").SetExternalLibs(libs()))
+	}
+	body, _ := json.Marshal(map[string]string{"VarInput": req.Text, "SourceCode": string(srcRunes(req.Src))})
+	hr := httptest.NewRequest("POST", "/", bytes.NewReader(body))
+	w := httptest.NewRecorder()
+	h.ServeHTTP(w, hr)
+	v := Text(w.Body.String())
+	return Resp{Kind: "value", Val: &v, Ints: []int{w.Code}, Display: readCapture()}
 }
 
 // doMembers reports the names exported by registered libraries and predefined globals.
